@@ -42,6 +42,214 @@ def split_tod(tod):
     return s // 3600, s // 60 % 60, s % 60, us
 
 
+def zoned_section(chk, rng, quick):
+    from elementpath import ElementPathError, XPathContext
+    from elementpath.xpath2 import XPath2Parser
+    from elementpath.xpath31 import XPath31Parser
+    from elementpath.datatypes import Timezone
+    proved = chk.prove(['theories/C11/Zoned.v', 'theories/C11/ZonedProofs.v'], 'theories/C11/ZonedProperties.v')
+    TZS = [None, None, 0, 60, -300, 840, -840, 330, -210]
+    CTX = [None, 0, -300, 330, 840, -840]
+    TODS = [0, tod_of(1, 0, 0, 0), tod_of(12, 0, 0, 0), tod_of(23, 0, 0, 0), tod_of(23, 59, 59, 999999), tod_of(10, 30, 15, 500000), tod_of(13, 59, 0, 0)]
+    YEARS = [-2, -1, 1, 2, 1999, 2000, 2024, 9998, 9999, 10000, 10001, -10000, 12345]
+    MDS = [(12, 31), (1, 1), (1, 2), (12, 30), (2, 28), (3, 1), (6, 15)]
+
+    def fmt_tz(t):
+        return '' if t is None else 'Z' if t == 0 else '%s%02d:%02d' % ('+' if t > 0 else '-', abs(t) // 60, abs(t) % 60)
+
+    def fmt_year(y):
+        return ('-%04d' % -y) if y < 0 else '%04d' % y
+
+    def fmt_tod(tod):
+        h, mi, sec, us = split_tod(tod)
+        return '%02d:%02d:%02d' % (h, mi, sec) + (('.%06d' % us).rstrip('0') if us else '')
+
+    def lex(kind, v):
+        y, m, d, tod, t = v
+        if kind == 'dateTime':
+            return "xs:dateTime('%s-%02d-%02dT%s%s')" % (fmt_year(y), m, d, fmt_tod(tod), fmt_tz(t))
+        if kind == 'date':
+            return "xs:date('%s-%02d-%02d%s')" % (fmt_year(y), m, d, fmt_tz(t))
+        return "xs:time('%s%s')" % (fmt_tod(tod), fmt_tz(t))
+
+    def norm(kind, v):      # the value as the model sees it
+        y, m, d, tod, t = v
+        if kind == 'date':
+            return (y, m, d, 0, t)
+        if kind == 'time':
+            return (1972, 12, 31, tod, t)
+        return v
+
+    def coq_zv(v):
+        y, m, d, tod, t = v
+        return f'({Z(y)}, {m}, {d}, {tod}, {"None" if t is None else "Some " + Z(t)})'
+
+    def coq_opt(t):
+        return 'None' if t is None else f'(Some {Z(t)})'
+
+    def rand_value():
+        y = rng.choice(YEARS)
+        m, d = rng.choice(MDS)
+        if not valid(y, m, d):
+            m, d = 3, 1
+        return (y, m, d, rng.choice(TODS), rng.choice(TZS))
+
+    def near(v):
+        y, m, d, tod, t = v
+        r = rng.random()
+        if r < 0.3:
+            return (y, m, d, rng.choice(TODS + [tod]), rng.choice(TZS))
+        if r < 0.6:     # the neighbouring day / year
+            if (m, d) == (12, 31):
+                y2 = y + 1 if y != -1 else 1
+                return (y2, 1, 1, rng.choice(TODS), rng.choice(TZS))
+            if (m, d) == (1, 1):
+                y2 = y - 1 if y != 1 else -1
+                return (y2, 12, 31, rng.choice(TODS), rng.choice(TZS))
+            return (y, m, d + 1 if d < 28 else d - 1, rng.choice(TODS), rng.choice(TZS))
+        return rand_value()
+
+    def evaluate(P, expr, ctx):
+        tz = None if ctx is None else Timezone(datetime.timedelta(minutes=ctx))
+        tok = P().parse(expr)
+        return tok.evaluate(XPathContext(root=None, item=1, timezone=tz)) if False else \
+            list(tok.select(XPathContext(root=_zroot(), timezone=tz)))
+
+    npairs = 220 if quick else 6000
+    pairs = []
+    for _ in range(npairs):
+        kind = rng.choice(['dateTime', 'dateTime', 'date', 'time'])
+        a = rand_value()
+        b = near(a)
+        pairs.append((kind, a, b, rng.choice(CTX)))
+    # fixed corpus: the repaired cases first
+    pairs[:0] = [('dateTime', (2000, 1, 1, tod_of(12, 0, 0, 0), None), (2000, 1, 1, tod_of(17, 0, 0, 0), 0), -300),
+                 ('time', (2000, 1, 1, tod_of(12, 0, 0, 0), None), (2000, 1, 1, tod_of(17, 0, 0, 0), 0), -300),
+                 ('date', (2000, 1, 1, 0, None), (2000, 1, 1, 0, -300), -300),
+                 ('dateTime', (-1, 12, 31, tod_of(23, 0, 0, 0), -300), (1, 1, 1, tod_of(3, 0, 0, 0), 0), None),
+                 ('dateTime', (10000, 1, 1, 0, 840), (9999, 12, 31, tod_of(10, 0, 0, 0), 0), None),
+                 ('date', (10001, 1, 1, 0, 840), (10000, 12, 31, 0, -600), 0)]
+    ts = [f'run_zcmp {coq_opt(c)} {coq_zv(norm(k, a))} {coq_zv(norm(k, b))}' for k, a, b, c in pairs]
+    model = core.run_coq_cases('C11', IMPORTS, ts, chunk=500, tag='zcmp')
+    OPS = [('eq', lambda c: c == 0), ('ne', lambda c: c != 0), ('lt', lambda c: c < 0), ('le', lambda c: c <= 0),
+           ('gt', lambda c: c > 0), ('ge', lambda c: c >= 0), ('=', lambda c: c == 0), ('<', lambda c: c < 0), ('>=', lambda c: c >= 0)]
+    for (kind, a, b, ctx), mo in zip(pairs, model):
+        if mo is None:
+            continue
+        c_impl, c_spec, s_impl, s_spec = mo
+        la, lb = lex(kind, a), lex(kind, b)
+        desc0 = {'kind': kind, 'a': la, 'b': lb, 'implicit timezone (minutes)': ctx}
+        for P in (XPath2Parser, XPath31Parser):
+            for op, pred in OPS:
+                chk.evaluations += 1
+                chk.count('zoned:compare')
+                expr = f'{la} {op} {lb}'
+                try:
+                    got = evaluate(P, expr, ctx)
+                except ElementPathError as ex:
+                    got = ['error ' + str(ex.code)]
+                except Exception as ex:
+                    got = ['exception ' + repr(ex)[:120]]
+                desc = desc0 | {'expr': expr, 'parser': P.__name__}
+                if got != [pred(c_impl)]:
+                    chk.corr_fail.append((desc, got, pred(c_impl)))
+                if got != [pred(c_spec)]:
+                    chk.violation('impl-vs-spec', desc, {'impl': repr(got), 'order of the instants': pred(c_spec)})
+            chk.evaluations += 1
+            chk.count('zoned:subtract')
+            expr = f'({la} - {lb}) div xs:dayTimeDuration("PT0.000001S")'
+            try:
+                got = evaluate(P, expr, ctx)
+                got = [int(x) for x in got]
+            except ElementPathError as ex:
+                got = ['error ' + str(ex.code)]
+            except Exception as ex:
+                got = ['exception ' + repr(ex)[:120]]
+            desc = desc0 | {'expr': expr, 'parser': P.__name__}
+            if got != [s_impl]:
+                chk.corr_fail.append((desc, got, s_impl))
+            if got != [s_spec]:
+                chk.violation('impl-vs-spec', desc, {'impl (microseconds)': repr(got), 'elapsed time between the instants': s_spec})
+            # the sequence functions use the same comparison
+            for fn, want in ((f'deep-equal({la}, {lb})', [c_spec == 0]), (f'index-of({la}, {lb})', [1] if c_spec == 0 else []),
+                             (f'count(distinct-values(({la}, {lb})))', [1 if c_spec == 0 else 2]),
+                             (f'max(({la}, {lb})) eq {la if c_spec >= 0 else lb}', [True]), (f'min(({la}, {lb})) eq {la if c_spec <= 0 else lb}', [True]),
+                             (f'string(max(({la}, {lb}))) eq string({la if c_spec >= 0 else lb})', [True]),
+                             (f'string(min(({la}, {lb}))) eq string({la if c_spec <= 0 else lb})', [True])):
+                chk.evaluations += 1
+                chk.count('zoned:sequence-functions')
+                try:
+                    got = evaluate(P, fn, ctx)
+                except ElementPathError as ex:
+                    got = ['error ' + str(ex.code)]
+                except Exception as ex:
+                    got = ['exception ' + repr(ex)[:120]]
+                if got != want:
+                    chk.violation('impl-vs-spec', desc0 | {'expr': fn, 'parser': P.__name__}, {'impl': repr(got), 'by the instants': want})
+        chk.nontrivial.add(repr(('zoned', kind, a, b, ctx)))
+    # ---- adjust-*-to-timezone ----
+    adj = []
+    for _ in range(150 if quick else 4000):
+        kind = rng.choice(['dateTime', 'date', 'time'])
+        v = rand_value()
+        form = rng.choice(['tz', 'tz', 'tz', 'empty', 'implicit'])
+        ctx = rng.choice(CTX)
+        target = rng.choice([0, 60, -300, 840, -840, 330, -600]) if form == 'tz' else None if form == 'empty' else ctx
+        adj.append((kind, v, form, ctx, target))
+    KN = {'dateTime': 0, 'date': 1, 'time': 2}
+    ts = [f'run_zadjust {KN[k]} {coq_zv(norm(k, v))} {coq_opt(t)}' for k, v, f, c, t in adj]
+    model = core.run_coq_cases('C11', IMPORTS, ts, chunk=500, tag='zadjust')
+    for (kind, v, form, ctx, target), mo in zip(adj, model):
+        if mo is None:
+            continue
+        lv = lex(kind, v)
+        if form == 'tz':
+            dur = 'PT%dM' % target if target >= 0 else '-PT%dM' % -target
+            expr = f"adjust-{kind}-to-timezone({lv}, xs:dayTimeDuration('{dur}'))"
+        elif form == 'empty':
+            expr = f'adjust-{kind}-to-timezone({lv}, ())'
+        else:
+            expr = f'adjust-{kind}-to-timezone({lv})'
+        chk.evaluations += 1
+        chk.count('zoned:adjust-' + form)
+        desc = {'expr': expr, 'implicit timezone (minutes)': ctx}
+        try:
+            r = evaluate(XPath2Parser, expr, ctx)[0]
+            off = None if r.tzinfo is None else int(r.tzinfo.offset.total_seconds() // 60)
+            if kind == 'time':
+                got = [0, 0, 0, tod_of(r.hour, r.minute, r.second, r.microsecond), 9999 if off is None else off]
+            else:
+                got = [r._year, r.month, r.day, tod_of(r.hour, r.minute, r.second, r.microsecond), 9999 if off is None else off]
+        except ElementPathError as ex:
+            got = ['error ' + str(ex.code)]
+        except Exception as ex:
+            got = ['exception ' + repr(ex)[:120]]
+        want = list(mo)
+        if form == 'implicit' and ctx is None:
+            # no implicit timezone in the context: F&O uses implicit-timezone() (PT0S here); the code removes the timezone
+            faithful = list(core.run_coq_cases('C11', IMPORTS, [f'run_zadjust {KN[kind]} {coq_zv(norm(kind, v))} None'], tag='zadjust1')[0])
+            if got == faithful and v[4] is not None and v[4] != 0:
+                chk.known('C11-adjust-without-context-timezone', desc | {'impl': repr(got)})   # the instant is moved
+            elif got != faithful:
+                chk.corr_fail.append((desc, got, faithful))
+                chk.violation('impl-vs-model', desc, {'impl': repr(got), 'model': faithful})
+            continue
+        if got != want:
+            chk.corr_fail.append((desc, got, want))
+            chk.violation('impl-vs-spec', desc, {'impl [year, month, day, time of day, timezone]': repr(got), 'spec (C11_adjust_preserves_instant)': want})
+        chk.nontrivial.add(repr(('zadjust', kind, v, form, ctx, target)))
+
+
+_ZROOT = []
+
+
+def _zroot():
+    if not _ZROOT:
+        import xml.etree.ElementTree as ET
+        _ZROOT.append(ET.XML('<r/>'))
+    return _ZROOT[0]
+
+
 def run(chk):
     from elementpath.datatypes import DateTime, DateTime10, Date, Date10, DayTimeDuration, YearMonthDuration, Timezone
     from elementpath import select, XPath2Parser, ElementPathError
@@ -291,6 +499,10 @@ def run(chk):
         if got_day != local_day or roff != tz2:
             chk.violation('impl-vs-spec', {'kind': 'adjust-date-to-timezone', 'value': dlex, 'tz': dur, 'implicit': implicit},
                           {'impl': str(r), 'spec_day_number': local_day, 'impl_day_number': got_day})
+    # ---- values with timezones through the XPath operators and functions (C11/Zoned.v): comparison (value and general),
+    # subtraction, min / max, index-of, distinct-values, deep-equal, adjust-*-to-timezone, for xs:dateTime / xs:date / xs:time,
+    # years on both sides of 1 and of 9999, every context timezone incl. none
+    zoned_section(chk, rng, quick)
     chk.rule = ('boundary years (+-1..5, 100/400 cycles, 9999/10000, BCE, 2^21) x boundary days x times of day, plus seeded random '
                 'dates; operations todelta / fromdelta / +-dayTimeDuration / +yearMonthDuration / constructor validity / '
                 'months2days for both XSD classes; comparisons and adjust-*-to-timezone across year boundaries and timezones '
